@@ -5,6 +5,19 @@ HERE = os.path.dirname(os.path.dirname(os.path.abspath(__file__)))
 
 # id -> (level, technique, text, note, design_ref, engine)
 CHECKS = {
+ "C07": ("fault_enumeration", "dry-run call counting + injection of an errno at every (call kind, ordinal) in parent and forked child, plus real failure causes; audits",
+         "For each configuration every pipe/fcntl/fork call of the parent and every chdir/dup2/setuid/setgid/setpgid/exec call of the forked child is failed once (link-time interposition, fault plan inherited across fork); eight real causes are applied too. Err must carry the step's errno, nothing may have started, no child and no descriptor may remain; without a fault the program must really have started.",
+         "Quick samples 48 configurations, thorough enumerates all 1056; the errno per point is drawn from a list of 14.", "DESIGN.md 4 (C07), 2.3.5", "real"),
+ "C15": ("exploration", "proptest-generated PATH shapes over a scratch tree; independent lookup model; self-reported /proc/self/exe",
+         "PATH values with missing / empty / non-executable / directory / non-binary / runnable / empty-string / duplicate / over-long entries and names with slashes are resolved by an independent model; the helper that actually ran reports its own executable path.",
+         "Harness sets its own PATH/cwd per case; runs as root.", "DESIGN.md 4 (C15)", "real"),
+ "C17": ("exploration", "proptest-generated sizes of name/PATH/argv/env/cwd x outcome; counting global allocator armed in the forked child",
+         "The harness's global allocator counts alloc/realloc calls into a shared page while armed; the interposed fork() arms it in the child only. Any allocation between fork and exec/_exit is a violation, on success and on every failure path (including injected child-side errors).",
+         "Sees allocations through Rust's global allocator only.", "DESIGN.md 4 (C17), 2.3.6", "real"),
+ "C18": ("exploration", "proptest-generated signal masks x SIGPIPE dispositions x spawn forms; child self-report of SigBlk/SigIgn + behavioural SIGPIPE check",
+         "The spawning thread blocks a generated set of signals and the harness sets SIGPIPE to ignored/default/handler; each child (helper built with #![no_main] so that no runtime touches the signal state) reports its mask and dispositions; a flooding child must die of SIGPIPE.",
+         "Trusts /proc/self/status of the child.", "DESIGN.md 4 (C18)", "real"),
+
  "C01": ("exploration", "proptest-generated child scripts x schedules x pipe capacities on a simulated kernel (link-time interposed libc); wait-for-cycle and call-budget oracle",
          "The real Communicator code runs against a deterministic simulated kernel in which the generated case contains the child's I/O script, the interleaving at system-call granularity, pipe capacities/flavours and sizes; a hang becomes an assertion failure (wait-for cycle or call budget) that shrinks and replays.",
          "Trusts the simulated pipe/poll model (differential-tested against real kernel pipes at every run) and the call budget as the definition of 'finishes'.", "DESIGN.md 2.1, 3 (C01)", "simk"),
